@@ -249,6 +249,19 @@ theorem counts_return_to_zero (conns : List Conn) (h0 : ∀ c ∈ conns, c.pc = 
 
 example : (sysRun { conns := [⟨[1], [7], 0⟩, ⟨[2], [7], 0⟩] } [0, 1, 1, 0, 0, 1, 1, 0]).active = [] := by decide
 
+/-- At a barrier — no connection inside `TrackConnection` or its closure: each is either not started, fully open
+    and counted (pc 2) or closed (pc 4) — every backend's least-connections counter equals the number of connections
+    open to it, whatever interleaving led there.  This is the spec the driver evaluates on the counter-drift probe
+    (`conc-ctr`): `count(backend) = number of currently open connections`. -/
+theorem barrier_counts (conns : List Conn) (h0 : ∀ c ∈ conns, c.pc = 0) (sched : List Nat)
+    (hb : ∀ c ∈ (sysRun { conns := conns } sched).conns, c.pc = 0 ∨ c.pc = 2 ∨ c.pc = 4) (b : Addr) :
+    (sysRun { conns := conns } sched).counters.count b =
+      (sysRun { conns := conns } sched).conns.countP (fun c => c.isOpen && c.backend == b) := by
+  rw [(counts_exact conns h0 sched).2.1 b]
+  apply List.countP_congr
+  intro c hc
+  rcases hb c hc with h | h | h <;> simp [Conn.counted, Conn.isOpen, h]
+
 /-! ### round-robin index under concurrency -/
 
 /-- picks as single atomic sections, in any order: (thread, index handed out) list and the final index -/
